@@ -100,6 +100,7 @@ fn main() {
         let lim = libc::rlimit { rlim_cur: fuse_gb << 30, rlim_max: fuse_gb << 30 };
         libc::setrlimit(libc::RLIMIT_AS, &lim);
     }
+    vharness::monitor::open_journal(&cfg);
     start_watchdog(&prop, tier.pick(1500, 4 * 3600));
     match vharness::props::run(&cfg) {
         Some(mut report) => {
